@@ -139,14 +139,58 @@ def unknown_nc_insertions(chk, exe, rng, nsig):
     return n
 
 
+def utf8_cases(chk, exe, tier, rng):
+    """Utf8.tla: every short octet string over the octet classes with the spec's verdict, replayed as the value of string elements: the error
+    message of an aggregation / extension response (may be empty), the login id of the PDU header, a publication reference of a signature's
+    publication record (must not be empty)"""
+    d = vlib.scratch("c10u")
+    cfg = os.path.join(d, "u.cfg")
+    with open(cfg, "w") as f:
+        f.write("SPECIFICATION Spec\nCONSTANTS\n  MaxLen = %d\nINVARIANTS\n  Sane\n  Emit\n" % (3 if tier == "quick" else 4))
+    r = vlib.run_tlc("MC_Utf8.tla", cfg, timeout=1500)
+    if r.violation:
+        raise vlib.CheckError("Utf8.tla violates Sane:\n" + r.out[-2000:])
+    vlib.tlc_must_pass(r, "MC_Utf8"); chk.tlc(r, "utf8")
+    cases = [json.loads(json.loads(l)[5:]) for l in r.out.splitlines() if l.startswith('"CASE ')]
+    sig = ksi.build_sig(rng, ksi.imprint(1, b"c10-utf8"), nchains=1, anchor="pub")
+    top = ksi.parse_tlvs(sig.tlv())[0]
+    parts = [(t, ksi.tlv(t, p, nc=nc, fw=fw)) for t, nc, fw, p, _ in ksi.parse_tlvs(top[3])]
+    lines, meta = [], []
+    for c in cases:
+        b = bytes(c["s"])
+        resp = lambda tag, inner: ksi.pdu_v2(tag, b"anon", b"anon", [ksi.tlv(0x02, ksi.tlv(0x01, ksi.uint(5)) + ksi.tlv(0x04, ksi.uint(0x101)) + inner)])
+        lines.append("PA " + resp(0x0221, ksi.tlv(0x05, b)).hex()); meta.append((c, c["ok"], "aggregation response error message"))
+        lines.append("PE " + resp(0x0321, ksi.tlv(0x05, b)).hex()); meta.append((c, c["ok"], "extension response error message"))
+        hdr = ksi.tlv(0x01, ksi.tlv(0x01, b))
+        body = hdr + ksi.tlv(0x02, ksi.tlv(0x01, ksi.uint(5)) + ksi.tlv(0x04, ksi.uint(0x101)))
+        lines.append("PA " + ksi.tlv(0x0221, body + ksi.tlv(0x1f, ksi.fake_imprint(1, b"m")), long=True).hex()); meta.append((c, c["ok"], "PDU header login id"))
+        pr = ksi.tlv(0x0803, ksi.pub_data_tlv(sig.pub["time"], sig.pub["imp"]) + ksi.tlv(0x09, b))
+        lines.append("PS " + ksi.tlv(0x0800, b"".join(pr if t == 0x0803 else x for t, x in parts), long=True).hex()); meta.append((c, c["okNonEmpty"], "publication reference of a signature"))
+    outs, crashes = vlib.run_lines(exe, lines, timeout=1500)
+    for idx, rc, err in crashes:
+        chk.violation("crash:utf8", "libksi crashed parsing a string element\n" + err[-1500:], dict(line=lines[idx]))
+    for (c, want, where), line, o in zip(meta, lines, outs):
+        if o is None:
+            continue
+        got = " rc=0 " in o + " "
+        if got != want:
+            b = bytes(c["s"])
+            cls = "".join("0" if x == 0 else "a" if x < 128 else "c" if x < 192 else "L" if x < 245 else "x" for x in b)
+            chk.violation("utf8:%s:%s:%s" % ("accepts-malformed" if got else "rejects-wellformed", where.split()[0], cls),
+                          "%s = %s: Utf8.tla says %s, libksi %s" % (where, b.hex(), "well-formed" if want else "malformed", o[:80]), dict(line=line, case=c))
+    return len(lines)
+
+
 def run(chk, tier, seed):
     exe = vlib.build_driver("drv_sig")
     rng = random.Random(seed)
+    nutf = utf8_cases(chk, exe, tier, rng)
+    chk.add(utf8_strings=nutf)
     cases, stats = schema_cases(chk, exe)
     n2 = unknown_nc_insertions(chk, exe, rng, 3 if tier == "quick" else 25)
     chk.sample(dict(kind="mutated object", case={k: cases[700][k] for k in ("fam", "path", "op", "accept")}))
     chk.sample(dict(kind="unknown non-critical insertion", note="inserted at every tree position of %d reference-built signatures" % (3 if tier == "quick" else 25)))
-    chk.add(evaluations=len(cases) + n2, distinct_nontrivial=len(cases), replay_stats=stats, unknown_insertions=n2, exhaustive=True,
+    chk.add(evaluations=len(cases) + n2 + nutf, distinct_nontrivial=len(cases), replay_stats=stats, unknown_insertions=n2, exhaustive=True,
             rule="6 valid base objects (2 signatures, 3 aggregation response PDUs v2, 1 extension response PDU v2) x every tree position x "
                  "{delete, duplicate, duplicate flagged non-critical, swap, retag to unknown (critical / non-critical), flag non-critical, insert/append "
                  "unknown (critical / non-critical), resize to every value class of the element's kind}")
